@@ -36,6 +36,7 @@ var (
 	c05a2 = Op{Kind: "against", Def: `{"type":"array","items":{"type":"string","minLength":2}}`, Val: `["aa","b"]`}
 	c05a3 = Op{Kind: "against", Def: `{"anyOf":[{"type":"integer"},{"type":"string","pattern":"^a+$"}]}`, Val: `"aa"`}
 	c05a4 = Op{Kind: "against", Def: `{"type":"number","maximum":2,"multipleOf":0.5}`, Val: `3`}
+	c05a5 = Op{Kind: "against", Def: `{"oneOf":[{"type":"string"},{"type":"integer"},{"maximum":2}]}`, Val: `1`}
 	c05p1 = Op{Kind: "param", Def: c04params[8], Val: `[]string:aa|b`}
 	c05h1 = Op{Kind: "header", Def: c04headers[0], Val: `int32:3`}
 	c05sA = Op{Kind: "specdef", Def: c05docA}
@@ -50,6 +51,7 @@ func c05scenarios(quick bool) []c05scn {
 		{name: "one-shot ∥ one-shot", threads: [][]Op{{c05a3}, {c05a4}}},
 		{name: "one-shot;one-shot ∥ one-shot", threads: [][]Op{{c05a1, c05a3}, {c05a2}}},
 		{name: "one-shot ∥ param", threads: [][]Op{{c05a4}, {c05p1}}},
+		{name: "oneOf with a failing then two matching alternatives ; deep ∥ deep", threads: [][]Op{{c05a5, c04amplifiers[0]}, {c04amplifiers[1]}}},
 		{name: "param ∥ header", threads: [][]Op{{c05p1}, {c05h1}}},
 		{name: "shared schema validator", shared: "schema", threads: [][]Op{{{Kind: "shared", Val: `{"a":[1,"x"],"b":"aa","s_x":"abc","t":[1,"2020-01-01",true]}`}}, {{Kind: "shared", Val: `{"a":[1],"c":3,"i_y":3,"o":1,"s_z":"ab"}`}}}},
 		{name: "shared schema validator", shared: "schema", threads: [][]Op{{{Kind: "shared", Val: `{"i_a":4,"i_b":5,"t":[1,"x",1],"o":7}`}}, {{Kind: "shared", Val: `{"s_a":"abcd","s_b":"a","b":"bb","o":"s"}`}, {Kind: "shared", Val: `{"a":["xx",3]}`}}}},
